@@ -32,7 +32,7 @@ type Profile struct {
 
 var (
 	// ProfileDB is the default profile for checks that run a database.
-	ProfileDB = Profile{MinTables: 1, MaxTables: 3, MinCols: 1, MaxCols: 5, Refs: 2, Indexes: 1, Enums: true, Immutable: true, Roots: true, BoundedSets: true}
+	ProfileDB = Profile{MinTables: 1, MaxTables: 3, MinCols: 1, MaxCols: 5, Refs: 2, Indexes: 2, Enums: true, Immutable: true, Roots: true, BoundedSets: true}
 	// ProfileRefs is reference heavy.
 	ProfileRefs = Profile{MinTables: 2, MaxTables: 4, MinCols: 1, MaxCols: 4, Refs: 8, Indexes: 0, Roots: true, BoundedSets: true}
 	// ProfileIndex is index heavy.
